@@ -268,6 +268,8 @@ def main(prop, argv=None):
     tier = a.tier if a.tier in ('quick', 'thorough') else 'quick'
     if a.no_lean:
         os.environ['VERIF_NO_FORMULAS'] = '1'
+        # development runs never overwrite the evidence that is committed
+        os.environ.setdefault('VERIF_EVIDENCE_DIR', os.path.join(__import__('tempfile').gettempdir(), 'verif_dev_evidence'))
     seed = int(os.environ.get('VERIF_SEED', '0') or 0)
     pid = prop.ID
     ctx = Ctx(pid, tier, seed)
